@@ -53,7 +53,7 @@ func (f *fileStorage) Set(key string, value []byte) error {
 	setMutex.Lock()
 	defer setMutex.Unlock()
 
-	if isTempFileName(key) {
+	if f.isTempFile(key) {
 		return errInvalidKey
 	}
 
@@ -105,7 +105,7 @@ func (f *fileStorage) Get(key string) ([]byte, error) {
 
 // Delete removes the file for the corresponding key.
 func (f *fileStorage) Delete(key string) error {
-	if isTempFileName(key) {
+	if f.isTempFile(key) {
 		return errInvalidKey
 	}
 
@@ -137,16 +137,21 @@ func (f *fileStorage) filePathToFile(file string) string {
 }
 
 func (f *fileStorage) fileForRead(key string) (*os.File, error) {
-	if isTempFileName(key) {
+	if f.isTempFile(key) {
 		return nil, errInvalidKey
 	}
 
 	return os.OpenFile(f.filePathToFile(key), os.O_RDONLY, 0666)
 }
 
-// isTempFileName returns true when the file of the key has the name of a temporary file.
-func isTempFileName(key string) bool {
-	return strings.HasSuffix(removeInvalidFileNameCharacters(key), tempFileSuffix)
+// isTempFile returns true when the file of the key has the name of a temporary file.
+func (f *fileStorage) isTempFile(key string) bool {
+	return isTempFileName(f.filePathToFile(key))
+}
+
+// isTempFileName returns true when the (cleaned) file name is the one of a temporary file.
+func isTempFileName(name string) bool {
+	return strings.HasSuffix(name, tempFileSuffix)
 }
 
 // Returns a string where invalid characters (e.g. colon ":" which is not allowed in file names on Window) are removed from fname
